@@ -15,8 +15,8 @@
    by the harness on every tree the real parser produces (it never fails there).
    The parser half ("every token the parser consumed is in the tree") needs a
    parser model (route A, DESIGN 5.0) and is checked on the implementation by
-   the token-sequence oracle of harness/c06.go; it FAILS for `end garbage`
-   (finding end-garbage-accepted). *)
+   the token-sequence oracle of harness/c06.go (`end garbage` was accepted
+   and dropped until /repo 47e7cf4; the oracle reports it again should it return). *)
 From Coq Require Import ZArith NArith List Bool.
 From Coq Require Import String.
 From EvyV Require Import Base FmtAst Format FormatProofs.
